@@ -72,7 +72,11 @@ func (v cval) native() string {
 	case "obj":
 		var xs []string
 		for i, x := range v.items {
-			xs = append(xs, v.keys[i]+" = "+x.native())
+			k := v.keys[i]
+			if strings.Contains(k, "${") {
+				k = `"` + k + `"` // a key with interpolation is a quoted template in native syntax
+			}
+			xs = append(xs, k+" = "+x.native())
 		}
 		return "{ " + strings.Join(xs, ", ") + " }"
 	}
@@ -251,8 +255,18 @@ func c19Schema() *schema.BodySchema {
 					depKey(nil, []schema.AttributeDependent{attrDep("kind", cty.StringVal("web"))}): {Attributes: map[string]*schema.AttributeSchema{"port": anyOf(cty.String)},
 						Blocks: map[string]*schema.BlockSchema{"tls": {Body: &schema.BodySchema{Attributes: map[string]*schema.AttributeSchema{"cert": anyOf(cty.String)}}}}},
 					depKey(nil, []schema.AttributeDependent{attrDep("kind", cty.StringVal("db"))}): {Attributes: map[string]*schema.AttributeSchema{"engine": anyOf(cty.String)}},
+					// a key value that is spelled like a traversal
+					depKey(nil, []schema.AttributeDependent{attrDep("kind", cty.StringVal("apps.v1"))}): {Attributes: map[string]*schema.AttributeSchema{"replicas": anyOf(cty.Number)}},
 				}},
 			"plain": {Body: &schema.BodySchema{Attributes: map[string]*schema.AttributeSchema{"s": anyOf(cty.String)}}},
+			// a dependent body selected by the *reference* written in a key attribute (Terraform: provider = aws.west)
+			"inst": {Labels: []*schema.LabelSchema{{Name: "name"}},
+				Body: &schema.BodySchema{Attributes: map[string]*schema.AttributeSchema{"prov": {Constraint: schema.Reference{OfScopeId: "sv"}, IsOptional: true, IsDepKey: true}}},
+				DependentBody: map[schema.SchemaKey]*schema.BodySchema{
+					depKey(nil, []schema.AttributeDependent{{Name: "prov", Expr: schema.ExpressionValue{Address: lang.Address{lang.RootStep{Name: "var"}, lang.AttrStep{Name: "a"}}}}}): {
+						Attributes: map[string]*schema.AttributeSchema{"extra": anyOf(cty.String),
+							"decl": {Constraint: schema.AnyExpression{OfType: cty.String}, IsOptional: true, Address: &schema.AttributeAddrSchema{Steps: schema.Address{schema.StaticStep{Name: "inst"}, schema.AttrNameStep{}}, ScopeId: "si", AsReference: true, AsExprType: true}}}},
+				}},
 		},
 	}
 }
@@ -322,6 +336,9 @@ func c19Configs() [][]citem {
 	// sibling blocks of one type whose dependent bodies are selected by different attribute values (both orders)
 	out = append(out, []citem{blk("variable", []string{"a"}), blk("svc", []string{"a"}, attr("kind", cStr("web")), attr("port", cRef("var.a")), blk("tls", nil, attr("cert", cStr("c")))), blk("svc", []string{"b"}, attr("kind", cStr("db")), attr("engine", cRef("var.a")))})
 	out = append(out, []citem{blk("variable", []string{"a"}), blk("svc", []string{"b"}, attr("kind", cStr("db")), attr("engine", cRef("var.a"))), blk("svc", []string{"a"}, attr("kind", cStr("web")), attr("port", cRef("var.a")), blk("tls", nil, attr("cert", cStr("c"))))})
+	out = append(out, []citem{blk("variable", []string{"a"}), blk("svc", []string{"c"}, attr("kind", cStr("apps.v1")), attr("replicas", cRef("var.a")))})
+	out = append(out, []citem{blk("variable", []string{"a"}), blk("inst", []string{"i"}, attr("prov", cRef("var.a")), attr("extra", cRef("var.a")), attr("decl", cStr("d")))})
+	out = append(out, []citem{blk("variable", []string{"a"}), blk("variable", []string{"b"}), blk("inst", []string{"i"}, attr("prov", cRef("var.b"))), blk("inst", []string{"j"}, attr("extra", cRef("var.a")), attr("prov", cRef("var.a")))})
 	// several resources
 	out = append(out, []citem{blk("variable", []string{"a"}), blk("resource", []string{"aws", "one"}, attr("x", cStr("1"))), blk("resource", []string{"aws", "two"}, attr("x", cRef("aws.one.x"))), blk("resource", []string{"gcp", "one"}, attr("y", cNum("3")))})
 	return out
@@ -479,7 +496,9 @@ func c19ConsForms() []cval {
 	return []cval{cStr("x y"), cStr("foo !"), cStr(""), cNum("3"), cBool("true"), cRef("decl.foo"), cRef("decl.foo.bar"), cTmpl("decl.foo.bar"),
 		cList(), cList(cStr("a b")), cList(cStr("a b"), cRef("decl.foo.bar")), cList(cList(cStr("n n"))), cList(cObj("foo", cStr("x y"))),
 		cObj(), cObj("foo", cStr("x y")), cObj("foo", cStr("x y"), "bar", cBool("true")), cObj("foo", cRef("decl.foo.bar"), "bar", cRef("decl.foo")), cObj("k", cObj("foo", cList(cNum("1"), cNum("2")))),
-		cObj("foo", cList(cStr("a b"), cStr("b c"))), cObj("zz", cRef("decl.foo.bar"))}
+		cObj("foo", cList(cStr("a b"), cStr("b c"))), cObj("zz", cRef("decl.foo.bar")),
+		// references interpolated into keys
+		cObj("${decl.foo.bar}-x", cStr("v v")), cObj("${decl.foo.bar}", cStr("v v"), "plain", cRef("decl.foo"))}
 }
 
 // c19ConsConfigs: the three places of a one-constraint body.
